@@ -100,7 +100,12 @@ func (s *ledgerSim) submit(b *pb.InternalBlock) string {
 	return confirmClass(st)
 }
 
-func (s *ledgerSim) step(op fx.Ev) (string, error) {
+func (s *ledgerSim) step(op fx.Ev) (res string, err error) {
+	defer func() {
+		if r := recover(); r != nil {
+			res, err = "panic", nil
+		}
+	}()
 	l := s.node.Ledger
 	// A generated operation may name a block the real ledger never stored (it refused a block the specification
 	// accepts): that earlier divergence is what the validation reports; the driver just records and goes on.
@@ -203,8 +208,15 @@ func (s *ledgerSim) projectLedger(l *ledger.Ledger) ledgerObs { return s.project
 
 // projectLedgerN projects with respect to the first n abstract blocks only (crash images are judged against the
 // state before the operation, whose numbering does not know the block being submitted, and the state after it).
-func (s *ledgerSim) projectLedgerN(l *ledger.Ledger, n int) ledgerObs {
-	o := ledgerObs{}
+func (s *ledgerSim) projectLedgerN(l *ledger.Ledger, n int) (o ledgerObs) {
+	// a query that panics is an answer like any other: it is recorded (and cannot equal the specification's)
+	defer func() {
+		if r := recover(); r != nil {
+			o.Tip, o.Th = -99, -99
+			o.Tips = []int{-99}
+		}
+	}()
+	o = ledgerObs{}
 	meta := l.GetMeta()
 	o.Tip = s.abs(meta.TipBlockid)
 	o.Th = int(meta.TrunkHeight)
@@ -305,7 +317,14 @@ func (s *ledgerSim) projectExtra(l *ledger.Ledger, n int, alive map[int]bool, o 
 		o.Lca = append(o.Lca, row)
 	}
 	o.Dump = [][][]interface{}{}
-	d, err := l.Dump()
+	d, err := func() (d [][]string, err error) {
+		defer func() {
+			if r := recover(); r != nil {
+				err = fmt.Errorf("panic: %v", r)
+			}
+		}()
+		return l.Dump()
+	}()
 	if err != nil {
 		o.Dump = append(o.Dump, [][]interface{}{{-1, false}})
 		return
